@@ -88,6 +88,7 @@ type Net struct {
 }
 
 type SimTransport struct {
+	FailRun bool // the next Run() fails
 	id   uint64
 	inc  int
 	addr string
@@ -98,7 +99,15 @@ type SimTransport struct {
 	is   func(*raft.InstallSnapshotRequest, *raft.InstallSnapshotResponse) error
 }
 
-func (t *SimTransport) Run() error      { return nil }
+// Run fails once when FailRun is set (the listen address is taken, the listener cannot be created):
+// Start/Restart must hand the error back and leave the node usable.
+func (t *SimTransport) Run() error {
+	if t.FailRun {
+		t.FailRun = false
+		return errors.New("could not create listener: address already in use")
+	}
+	return nil
+}
 func (t *SimTransport) Shutdown() error { return nil }
 func (t *SimTransport) park(c *Call) error {
 	t.n.mu.Lock()
